@@ -52,6 +52,8 @@ def _codecs_lookup(interp, args, kwargs):
         codecs.lookup(args[0])
     except LookupError as error:
         interp.raise_("builtins.LookupError", str(error))
+    except ValueError as error:  # embedded NUL, lone surrogate
+        interp.raise_("builtins.ValueError", str(error))
     except TypeError:
         raise Undecided("codecs.lookup(%r)" % (args[0],))
     return Opaque("codec-info")
@@ -66,7 +68,9 @@ def value_pool(interp, model, name):
     module = model.module("cutplace.data")
     fold = lambda constant: interp.global_lookup(module, constant)  # noqa: E731
     if name == "encoding":
-        return [("utf-8", "utf-8"), ("cp1252", "cp1252"), ("no-such-encoding", "invalid")]
+        # codecs that are not text encodings and names the codec registry cannot even look up are not encodings of data
+        return [("utf-8", "utf-8"), ("cp1252", "cp1252"), ("no-such-encoding", "invalid"), ("hex", "invalid"), ("rot13", "invalid"),
+                ("base64", "invalid"), ("utf-8\0", "invalid")]
     if name == "header":
         return [("0", 0), ("3", 3), ("-1", "invalid"), ("x", "invalid")]
     if name == "sheet":
